@@ -39,7 +39,9 @@ QCONFIGS_THOROUGH = [
     ("quantized_relu_po2", dict(bits=6, max_value=4.0)),
     ("quantized_relu_po2", dict(bits=3, negative_slope=0.5)),
 ]
-FGRID = [0.0, 0.125, 0.25, 0.5, 0.75, 0.875, 1.0, 0.3, 0.9]
+# every grid value is a float32 number: a tf.Variable(float32) cannot hold the double 0.3, so "the same f in both storages"
+# is only meaningful for f that float32 represents (a Python-float 0.3 vs float32(0.3) are two different factors)
+FGRID = [0.0, 0.125, 0.25, 0.5, 0.75, 0.875, 1.0, float(np.float32(0.3)), float(np.float32(0.9))]
 
 
 def surrogate(b, cls, kw, x):
